@@ -169,6 +169,9 @@ pub struct ProbeLog {
   /// thread cannot happen (no re-entrancy is generated); on another thread it
   /// is the violation C10 looks for
   pub yield_inside: AtomicBool,
+  /// 0 = never; k = the probe reports `is_finished()` once it has seen k
+  /// notifications ("I have enough") without having been terminated
+  pub finish_after: AtomicUsize,
 }
 
 impl ProbeLog {
@@ -224,7 +227,8 @@ impl<T: IntoVal, Er: IntoErr> Observer<T, Er> for Probe {
     self.0.record(Ev::Complete);
   }
   fn is_finished(&self) -> bool {
-    false
+    let k = self.0.finish_after.load(SeqCst);
+    k != 0 && self.0.len() >= k
   }
 }
 
